@@ -47,9 +47,10 @@ EXCLUDE = [
     (r'^glm_op_(div|mod)_(i32|u32)_', r'.',
      'integer / and % of aligned ivec/uvec: no SIMD code in this tree (_mm_div_epi32 is MSVC-only; compute_vec_div/mod<.., true> forward to the '
      'generic loop) and the z3/SAT portfolio does not decide the divider equivalence on the vectorised extraction within the tier timeouts'),
-    (r'^glm_op_mul_(i32|u32)_', r'^sse2$',
-     'integer * at SSE2 (_mm_mul_epu32 on even/odd lanes + shuffles): equivalence of the 32x32->64 multipliers with the 32-bit product is out of '
-     'reach of z3 and SAT within the timeouts (undecided, not refuted; the SSE4.1/AVX2 _mm_mullo_epi32 path is claimed in the thorough tier)'),
+    (r'^glm_op_mul_(i32|u32)_', r'.',
+     'integer * of aligned ivec/uvec (SSE2: _mm_mul_epu32 on even/odd lanes + shuffles; SSE4.1/AVX2: _mm_mullo_epi32): the bit-vector multiplier '
+     'equivalence with the 32-bit product is not decided reliably (z3 answered the vv forms at SSE4.1 in 25-81 s in one run and hit the 900 s '
+     'timeout in another, the vs/sv forms and SSE2 never; SAT never): undecided, not refuted; the T-check compares these shims natively'),
     (r'^glm_mod_f32_v[vs]_v4$', r'^sse2$',
      'mod(vec4) at SSE2: x - y * floor(x / y) in the pure order, with the (x + 2^23) - 2^23 floor: the relational abstraction of * and / fails (a NaN '
      'quotient reaches the uninterpreted product with a different payload on the two sides) and the exact multiplier/divider instance times out; '
@@ -81,7 +82,7 @@ REL = [
     (r'^glm_(refract|faceforward)_bits_v4_f32$', r'.', 4),
 ]
 # expensive obligations measured on the SIMD extractions: thorough tier only (regex over the function name)
-SLOW = r'^glm_(mirrorRepeat|mirrorClamp)_f32_v_v4$|^glm_op_mul_(i32|u32)_|^glm_mix_f32_vv[vs]_v4$'
+SLOW = r'^glm_mirrorRepeat_f32_v_v4$'
 
 P.reused = []
 P.skipped_sources = []
